@@ -450,6 +450,103 @@ def rule_unpack(run):
     run.end()
 
 
+def rule_anyall(run):
+    run.begin(
+        "C10.anyall",
+        "any()/all() in traced code fold like CPython for every mix of compile-time constants and run-time values: "
+        "all() is constant False iff SOME constant element is falsy (whatever its position), constant True iff there is "
+        "no run-time element left, otherwise the conjunction of exactly the run-time elements; dually for any() "
+        "(abstract evaluation of the _Any/_All branches of convert_intrinsic)",
+        floor=60,
+    )
+    import itertools
+    from ..absint import Interp, Reject, Env, _Return
+
+    class _TQ:  # run-time object met directly in the iterable
+        def __init__(self, n):
+            self.n = n
+
+    class _RtExpr:  # element whose boolean conversion is a run-time expression
+        def __init__(self, n):
+            self.n = n
+
+    class _Conv:
+        def __init__(self, v):
+            self.v = v
+
+        def result(self):
+            return ("rt", self.v.n) if isinstance(self.v, _RtExpr) else self.v
+
+    class _Self:
+        def convert_boolean(self, v):
+            return _Conv(v)
+
+    class _Node:
+        def __init__(self, kind, *a):
+            self.kind, self.a = kind, a
+
+    class _Out:
+        Value = lambda self, *a: _Node("Value", *a)
+        Any = lambda self, *a: _Node("Any", *a)
+        All = lambda self, *a: _Node("All", *a)
+
+    class _TQMod:
+        TypeQualifier = _TQ
+
+    class _Res:
+        pass
+
+    prep = run.idx.mod(PREP)
+    f = prep.func("PrepareAst.convert_intrinsic")
+    for cls, pyfn, node in (("_Any", any, "Any"), ("_All", all, "All")):
+        brs = [s for s in ast.walk(f.node) if isinstance(s, ast.If) and isinstance(s.test, ast.Call) and dotted(s.test.func) == "isinstance"
+               and len(s.test.args) == 2 and (dotted(s.test.args[1]) or "").split(".")[-1] == cls]
+        if len(brs) != 1:
+            raise AnalysisError(f"convert_intrinsic: branch for {cls} not found")
+        br = brs[0]
+        rname = dotted(br.test.args[0])
+        kinds = ("T", "F", "Q", "E")
+        for n in range(0, run.bound(4, 6)):
+            for combo in itertools.product(kinds, repeat=n):
+                elems = [True if k == "T" else False if k == "F" else _TQ(i) if k == "Q" else _RtExpr(i) for i, k in enumerate(combo)]
+                rt = sorted(i for i, k in enumerate(combo) if k in "QE")
+                consts = [e for e in elems if isinstance(e, bool)]
+                decided = (pyfn is all and not all(consts)) or (pyfn is any and any(consts))
+                if decided:
+                    exp = ("Value", pyfn is any)
+                elif not rt:
+                    exp = ("Value", pyfn is all)
+                else:
+                    exp = (node, tuple(rt))
+                res = _Res()
+                res.iterable = elems
+                prims = {"isinstance": lambda v, t: isinstance(v, t) if isinstance(t, (type, tuple)) else False, "out": _Out(), "_type_qualifier": _TQMod(),
+                         "TypeQualifier": _TQ, "len": len, "bool": bool, "list": list}
+                it = Interp(prep, prims)
+                env = Env()
+                env.vars[rname] = res
+                env.vars["self"] = _Self()
+                try:
+                    it.run(br.body, env)
+                    got = ("fell through",)
+                except _Return as r:
+                    v = r.value
+                    if isinstance(v, _Node) and v.kind == "Value":
+                        got = ("Value", v.a[0])
+                    elif isinstance(v, _Node):
+                        ids = []
+                        for x in v.a[0]:
+                            ids.append(x.n if isinstance(x, _TQ) else x[1] if isinstance(x, tuple) and x and x[0] == "rt" else repr(x))
+                        got = (v.kind, tuple(sorted(ids, key=str)))
+                    else:
+                        got = (repr(v),)
+                except Reject as e:
+                    got = ("rejected", str(e))
+                run.ob(got == exp, f"PrepareAst.convert_intrinsic[{cls}]", file=prep.rel, line=br.lineno, detail="".join(combo) or "empty",
+                       expected=f"{pyfn.__name__}({list(combo)}) -> {exp}", found=str(got)[:100], sample=combo == ("F", "T"))
+    run.end()
+
+
 def rule_defaults(run):
     run.begin(
         "C10.defaults",
@@ -561,6 +658,72 @@ def rule_getattr(run):
     ok = not (extra and bad and rets_default)
     run.ob(ok, "getattr_replacement", file=vb.rel, line=f.node.lineno, detail="missing-attribute", expected="two-argument getattr of a missing attribute is rejected (an optional default needs a private sentinel, not None)",
            found="ok" if ok else f"default parameter {extra[0].arg}=None is returned for missing attributes")
+    run.end()
+
+
+def rule_hasattr(run):
+    run.begin(
+        "C10.hasattr",
+        "hasattr(obj, name) in traced code answers like CPython for instance attributes, class attributes seen through an "
+        "instance, a class's own and INHERITED attributes, metaclass attributes, slots and missing names (abstract "
+        "evaluation of the hasattr replacement and ObjTraits.hasattr on sample object shapes)",
+        floor=12,
+    )
+    from ..absint import Interp, Reject
+
+    vb = run.idx.mod("cohdl/_compiler/frontend/_value_branch.py")
+    repl = [f for f in vb.functions.values() if any(isinstance(d, ast.Call) and dotted(d.func) == "_intrinsic_replacement" and d.args and dotted(d.args[0]) == "hasattr" for d in f.node.decorator_list)]
+    if len(repl) != 1:
+        raise AnalysisError("hasattr replacement not found in _value_branch.py")
+    repl = repl[0]
+    vb.func("ObjTraits.hasattr")
+
+    class _MB:
+        pass
+
+    class Meta(type):
+        meta_attr = 1
+
+    class Base(metaclass=Meta):
+        WIDTH = 8
+
+        def method(self):
+            pass
+
+    class Derived(Base):
+        own = 1
+
+    class Slots:
+        __slots__ = ("s",)
+
+        def __init__(self):
+            self.s = 1
+
+    inst = Derived()
+    inst.field = 3
+    samples = [
+        ("instance.__dict__", inst, "field"), ("instance->class", inst, "own"), ("instance->base", inst, "WIDTH"), ("instance->method", inst, "method"),
+        ("instance missing", inst, "nope"), ("class own", Derived, "own"), ("class inherited", Derived, "WIDTH"), ("class inherited method", Derived, "method"),
+        ("class metaclass", Derived, "meta_attr"), ("class missing", Derived, "nope"), ("slots", Slots(), "s"), ("slots missing", Slots(), "t"),
+        ("int", 5, "real"), ("int missing", 5, "nope"), ("str", "x", "upper"), ("None missing", None, "nope"), ("tuple", (1, 2), "count"),
+    ]
+    for label, obj, name in samples:
+        prims = {"hasattr": hasattr, "vars": vars, "type": type, "int": int, "getattr": getattr,
+                 "isinstance": lambda v, t: isinstance(v, t) if isinstance(t, (type, tuple)) else False, "_MergedBranch": _MB}
+        it = Interp(vb, prims)
+
+        class _OT:
+            @staticmethod
+            def hasattr(*a, **k):
+                return it.call_function("ObjTraits.hasattr", *a, **k)
+
+        prims["ObjTraits"] = _OT()
+        try:
+            got = it.call_node(repl.node, [obj, name], {}, __import__("sa.absint", fromlist=["Env"]).Env())
+        except Reject as e:
+            got = f"rejected: {e}"
+        exp = hasattr(obj, name)
+        run.ob(got is exp or got == exp and isinstance(got, bool), "hasattr replacement", file=vb.rel, line=repl.node.lineno, detail=label, expected=f"hasattr -> {exp}", found=str(got), sample=label == "class inherited")
     run.end()
 
 
@@ -696,7 +859,7 @@ def rule_loop_scope(run):
     run.end()
 
 
-RULES = [rule_tables, rule_dispatch, rule_compare_chain, rule_boolop, rule_fail_closed, rule_bind, rule_env, rule_builtins, rule_siblings, rule_unpack, rule_purge, rule_defaults, rule_comprehension, rule_unreachable, rule_getattr, rule_returns_always, rule_default_names, rule_loop_scope]
+RULES = [rule_tables, rule_dispatch, rule_compare_chain, rule_boolop, rule_fail_closed, rule_bind, rule_env, rule_builtins, rule_siblings, rule_unpack, rule_anyall, rule_purge, rule_defaults, rule_comprehension, rule_unreachable, rule_getattr, rule_hasattr, rule_returns_always, rule_default_names, rule_loop_scope]
 LEVEL = "other"
 EXPLANATION = (
     "The tracer re-implements CPython's evaluation rules by hand; decided here, for all programs, are the parts of "
